@@ -52,6 +52,7 @@ impl Scenario {
                 Shape::Diamond(..) => "diamond".into(),
                 Shape::Merge(_) => "merge".into(),
                 Shape::Packets(_) => "packets".into(),
+                Shape::VecPackets(_) => "vecpackets".into(),
             },
             Scenario::Run(p) => format!("{}-{}", p.kind, p.runner),
         }
@@ -178,6 +179,50 @@ fn c05_scenarios(thorough: bool) -> Vec<Scenario> {
             d_all,
         ));
     }
+    // Packets into VecToStream: the last packet must not be lost when the
+    // sink is behind and the packet source has already gone away.
+    for sizes in [vec![2usize, 2], vec![1, 2], vec![2, 1, 2]] {
+        for order in some_orders(3) {
+            v.push(Scenario::MtResult(
+                GraphSpec {
+                    shape: Shape::VecPackets(sizes.clone()),
+                    per_page: 2,
+                    pages: 1,
+                    src_len: 0,
+                    order,
+                    file_repeat: 0,
+                },
+                if thorough { 2 } else { 1 },
+            ));
+        }
+    }
+    v.push(Scenario::MtResult(
+        GraphSpec {
+            shape: Shape::VecPackets(vec![2, 2]),
+            per_page: 2,
+            pages: 1,
+            src_len: 0,
+            order: vec![0, 1, 2],
+            file_repeat: 0,
+        },
+        2,
+    ));
+    // Delay, now that it is repaired.
+    for len in [1usize, 3] {
+        for order in some_orders(3) {
+            v.push(Scenario::MtResult(
+                GraphSpec {
+                    shape: Shape::Chain(vec![Stage::Delay(1)]),
+                    per_page: 1,
+                    pages: 1,
+                    src_len: len,
+                    order,
+                    file_repeat: 0,
+                },
+                1,
+            ));
+        }
+    }
     // Designated deep runs: capacity-1 chains at a higher bound.
     for (st, len) in [(Stage::AddConst(1), 3usize), (Stage::MoveWait, 2)] {
         v.push(Scenario::MtResult(
@@ -233,6 +278,18 @@ fn c07_scenarios(thorough: bool) -> Vec<Scenario> {
                 }
             }
         }
+    }
+    // Sources that answer Again (not a wait) between cancel checks.
+    for runner in ["mt", "st"] {
+        v.push(Scenario::Run(RunParams {
+            kind: "cancel".into(),
+            runner: runner.into(),
+            infinite: true,
+            src_len: 7777, // marker: AgainSource
+            fail_block: 0,
+            fail_call: 0,
+            cancel_early: false,
+        }));
     }
     // A failure must be reported also when cancellation races with it.
     for runner in ["mt", "st"] {
@@ -367,6 +424,23 @@ fn c04_scenarios(_thorough: bool) -> Vec<Scenario> {
                 need,
                 backlog: 0,
             }));
+        }
+    }
+    // The block-level form: the runner's per-block loop on a source -> sink
+    // graph must not turn "the writer is gone" into "nothing more to read".
+    for (per_page, len) in [(1usize, 1usize), (1, 2), (2, 2), (2, 3)] {
+        for order in [vec![0usize, 1], vec![1, 0]] {
+            v.push(Scenario::MtResult(
+                GraphSpec {
+                    shape: Shape::Chain(vec![]),
+                    per_page,
+                    pages: 1,
+                    src_len: len,
+                    order,
+                    file_repeat: 0,
+                },
+                2,
+            ));
         }
     }
     v.push(Scenario::Eos(EosParams {
